@@ -93,7 +93,7 @@ func newSpecFile() *SpecFile {
 	}
 }
 
-var clauseHead = regexp.MustCompile(`^(requires|ensures|maintains|modifies|invariant|decreases|panics_iff|ensures_on_panic|assert)(\[[^\]]*\])?\s*(.*)$`)
+var clauseHead = regexp.MustCompile(`^(requires|ensures_on_panic|ensures|maintains|modifies|invariant|decreases|panics_iff|assert)(\[[^\]]*\])?\s*(.*)$`)
 
 var knownKeywords = map[string]bool{
 	"func": true, "iface": true, "ghost": true, "smtfun": true, "spec": true, "axiom": true, "lemma": true,
